@@ -86,8 +86,8 @@ int exec_special_op(World &w, const Op &op) {
         if (w.failed()) return 0;
         std::string bytes0; disk_read_all(w.path, bytes0);
         std::string cp = w.dir + "/probe" + std::to_string(++w.file_gen) + ".nix";
-        int scen = ((unsigned) a[0]) % 12;
-        static const char *names[] = {"ro-absent", "rw-absent", "overwrite-absent", "overwrite-existing", "format-missing", "format-wrong", "version-missing", "id-missing", "plain-hdf5", "text-file", "empty-file", "rw-existing"};
+        int scen = ((unsigned) a[0]) % 15;
+        static const char *names[] = {"ro-absent", "rw-absent", "overwrite-absent", "overwrite-existing", "format-missing", "format-wrong", "version-missing", "id-missing", "plain-hdf5", "text-file", "empty-file", "rw-existing", "ro-session-then-rw", "ro-session-then-overwrite", "rw-session-then-ro"};
         w.arg_class = names[scen];
         w.cnt.inc(std::string("header.") + names[scen]);
         std::string err;
@@ -106,6 +106,51 @@ int exec_special_op(World &w, const Op &op) {
             if (!try_open(cp, FileMode::Overwrite, OpenFlags::None, &err, &nb, &ns)) w.fail("C09.overwrite-empties", "Overwrite of an existing file failed: " + err);
             else if (nb || ns) w.fail("C09.overwrite-empties", "Overwrite left " + std::to_string(nb) + " blocks / " + std::to_string(ns) + " sections");
             else if (!try_open(cp, FileMode::ReadWrite, OpenFlags::None, &err, &nb, &ns) || nb || ns) w.fail("C09.overwrite-empties", "file produced by Overwrite is not a valid empty file on reopen: " + err);
+        } else if (scen >= 12) {
+            // a sequence of sessions on one path in one process: what an earlier session did (rejected mutators of a ReadOnly session
+            // included) must not influence what the next open mode delivers
+            disk_copy(w.path, cp);
+            std::vector<int> kinds;
+            for (int k = 0; k < OP_COUNT; k++) { if (!op_modifies(k)) continue; const char *nm = op_name(k); if (!strncmp(nm, "abuse_", 6) || k == OP_use_stale || k == OP_drop) continue; kinds.push_back(k); }
+            auto s_arr = w.arr; auto s_dims = w.dims; auto s_prop = w.prop; auto s_frame = w.frame;
+            Violation v_saved = w.viol; bool own_saved = w.viol_own;
+            std::string main_path = w.path; int saved_cur = w.cur;
+            bool first_ok = true; std::string ferr;
+            Node after_first;
+            try {
+                w.f = File::open(cp, scen == 14 ? FileMode::ReadWrite : FileMode::ReadOnly); w.path = cp; w.mode = scen == 14 ? 0 : 1; w.is_open = true;
+                int n = 2 + (int) r.below(8);
+                for (int i = 0; i < n; i++) {
+                    Op m; m.kind = kinds[r.below(kinds.size())];
+                    for (int &x : m.a) x = (int) r.below(1000);
+                    m.a[5] = 2 + (int) r.below(1000); m.sub = r.next() >> 1; m.s = std::string("ms") + std::to_string(r.below(4));
+                    w.del_victim.clear(); w.del_handles.clear();
+                    try { (void) w.exec(m); } catch (const std::exception &) {}
+                    w.del_handles.clear(); w.del_victim.clear();
+                }
+                w.live.clear();
+                ObsOpts o; after_first = observe(w.f, o, nullptr, &w.getters);
+                w.f.close();
+            } catch (const std::exception &e) { first_ok = false; ferr = e.what(); }
+            w.f = nix::none; w.is_open = false; w.path = main_path; w.mode = was_mode; w.cur = saved_cur; w.live.clear();
+            w.arr = s_arr; w.dims = s_dims; w.prop = s_prop; w.frame = s_frame;
+            w.viol = v_saved; w.viol_own = own_saved;
+            w.arg_class = names[scen];
+            if (!first_ok) w.fail("C09.rw-preserves", std::string("opening an intact copy failed: ") + ferr);
+            else if (scen == 12 || scen == 14) {
+                if (scen == 12 && !node_equal(before, after_first, err)) w.fail("C09.ro-mutator-throws", "a ReadOnly session changed what the file shows at " + err);
+                else try {
+                    File g = File::open(cp, scen == 12 ? FileMode::ReadWrite : FileMode::ReadOnly);
+                    ObsOpts o; Node d = observe(g, o, nullptr, &w.getters);
+                    g.close();
+                    std::string where;
+                    if (!node_equal(after_first, d, where)) w.fail("C09.rw-preserves", std::string(scen == 12 ? "ReadWrite open after a ReadOnly session" : "ReadOnly open after a ReadWrite session") + " on the same path does not show the prior content at " + where);
+                } catch (const std::exception &e) { w.fail("C09.rw-preserves", std::string(scen == 12 ? "ReadWrite open after a ReadOnly session" : "ReadOnly open after a ReadWrite session") + " on the same path failed: " + e.what()); }
+            } else {
+                if (!try_open(cp, FileMode::Overwrite, OpenFlags::None, &err, &nb, &ns)) w.fail("C09.overwrite-empties", "Overwrite after a ReadOnly session on the same path failed: " + err);
+                else if (nb || ns) w.fail("C09.overwrite-empties", "Overwrite after a ReadOnly session left " + std::to_string(nb) + " blocks / " + std::to_string(ns) + " sections");
+                else if (!try_open(cp, FileMode::ReadOnly, OpenFlags::None, &err, &nb, &ns) || nb || ns) w.fail("C09.overwrite-empties", "file produced by Overwrite after a ReadOnly session is not a valid empty file on reopen: " + err);
+            }
         } else if (scen == 11) {
             disk_copy(w.path, cp);
             try {
@@ -178,6 +223,7 @@ int exec_special_op(World &w, const Op &op) {
             disk_copy(w.path, twin);
             auto s_arr = w.arr; auto s_dims = w.dims; auto s_prop = w.prop; auto s_frame = w.frame;
             File ro = w.f; std::string ro_path = w.path; std::string ac;
+            Violation v_saved = w.viol; bool own_saved = w.viol_own;
             bool twin_changed = false; int rc_tw = 2;
             try {
                 w.f = File::open(twin, FileMode::ReadWrite); w.path = twin; w.mode = 0;
@@ -193,14 +239,14 @@ int exec_special_op(World &w, const Op &op) {
             w.f = ro; w.path = ro_path; w.mode = 1;
             w.arr = s_arr; w.dims = s_dims; w.prop = s_prop; w.frame = s_frame;
             disk_remove(twin);
-            if (w.failed()) { w.viol = Violation(); }   // model oracles that fired on the twin are not this op's business
+            w.viol = v_saved; w.viol_own = own_saved;   // model oracles that fired on the twin are not this op's business
             // --- the real thing on the ReadOnly file
             int rc;
             w.del_victim.clear(); w.del_handles.clear();
             try { rc = w.exec(m); } catch (const std::exception &) { rc = 1; }
             w.del_handles.clear(); w.del_victim.clear();
             w.arr = s_arr; w.dims = s_dims; w.prop = s_prop; w.frame = s_frame;
-            if (w.failed()) { w.viol = Violation(); }
+            w.viol = v_saved; w.viol_own = own_saved;
             w.arg_class = std::string(op_name(m.kind)) + "," + ac;
             w.cnt.inc(std::string("ro.mutator.") + op_name(m.kind) + (rc == 1 ? ".threw" : rc == 0 ? ".returned" : ".skipped"));
             if (twin_changed) w.cnt.inc("ro.mutators_effective_in_rw");
